@@ -13,15 +13,18 @@ Proof. split; [destruct n_prior, idx_len; reflexivity|destruct n_batches; reflex
 Lemma rw_gen_chain file_rows n_prior idx_len n_batches pool_size ts :
   rw_tasks_gen file_rows n_prior idx_len n_batches pool_size = Some ts ->
   1 <= rw_n_samples file_rows n_prior idx_len -> 1 <= rw_n_batches n_batches pool_size ->
-  chain 0 (rw_n_samples file_rows n_prior idx_len) ts.
+  chain 0 (rw_n_samples file_rows n_prior idx_len) ts /\
+  Forall (fun t => t_is_idx t = match idx_len with None => true | Some _ => false end) ts.
 Proof.
   unfold rw_tasks_gen. destruct (rw_gen_counts file_rows n_prior idx_len n_batches pool_size) as [E1 E2]. rewrite E1, E2.
   intros H Hn Hb.
   assert (Hts : ts = batch_tasks_gen (rw_n_samples file_rows n_prior idx_len) (rw_n_batches n_batches pool_size) 0
                        (match idx_len with None => true | Some _ => false end)).
   { destruct n_prior, idx_len; try discriminate; injection H as <-; reflexivity. }
-  subst ts.
-  pose proof (bt_chain (rw_n_samples file_rows n_prior idx_len) (rw_n_batches n_batches pool_size) 0
-                       (match idx_len with None => true | Some _ => false end) Hb Hn) as Hc.
-  rewrite Z.add_0_l in Hc. exact Hc.
+  subst ts. split.
+  - pose proof (bt_chain (rw_n_samples file_rows n_prior idx_len) (rw_n_batches n_batches pool_size) 0
+                         (match idx_len with None => true | Some _ => false end) Hb Hn) as Hc.
+    rewrite Z.add_0_l in Hc. exact Hc.
+  - exact (bt_kind (rw_n_samples file_rows n_prior idx_len) (rw_n_batches n_batches pool_size) 0
+                   (match idx_len with None => true | Some _ => false end) Hb Hn).
 Qed.
